@@ -7,11 +7,12 @@ use serde::{de::DeserializeOwned, Serialize};
 use std::marker::PhantomData;
 use sylvia::ctx::{ExecCtx, InstantiateCtx, QueryCtx, SudoCtx};
 
-/// A: used directly in exec; B: only inside Vec<Option<B>> in sudo; R: only as a query response; U: unused;
+/// A: used directly in exec; B: only inside a top-level tuple `(Vec<Option<B>>, u8)` in sudo; W: only inside
+/// `std::vec::Vec<W>` (a module-qualified path) in exec; R: only as a query response; U: unused;
 /// V: only as the explicit `resp=` type of a query; I: only in the instantiate message, and mentioned by A's predicate.
-pub struct Gen<A, B, R, U, V, I> {
+pub struct Gen<A, B, R, U, V, I, W> {
     pub calls: Calls,
-    _p: PhantomData<(A, B, R, U, V, I)>,
+    _p: PhantomData<(A, B, R, U, V, I, W)>,
 }
 
 pub type GenResult<X> = Result<X, Echo>;
@@ -23,11 +24,13 @@ impl Small for u8 {}
 
 #[sylvia::contract]
 #[sv::error(Echo)]
-impl<A, B, R, U, V, I> Gen<A, B, R, U, V, I>
+impl<A, B, R, U, V, I, W> Gen<A, B, R, U, V, I, W>
 where
     // A's predicate also mentions I (used by instantiate only): it must not leak onto InstantiateMsg<I>
     A: Serialize + DeserializeOwned + std::fmt::Debug + Clone + PartialEq + schemars::JsonSchema + Small + Pair<I> + 'static,
     I: Serialize + DeserializeOwned + std::fmt::Debug + Clone + PartialEq + schemars::JsonSchema + 'static,
+    // W occurs ONLY inside a module-qualified generic type (`std::vec::Vec<W>`) of an exec argument
+    W: Serialize + DeserializeOwned + std::fmt::Debug + Clone + PartialEq + schemars::JsonSchema + 'static,
     // B's predicate also mentions the unused U: it must not leak onto SudoMsg<B>
     B: Serialize + DeserializeOwned + std::fmt::Debug + Clone + PartialEq + schemars::JsonSchema + Pair<U> + 'static,
     R: Serialize + DeserializeOwned + std::fmt::Debug + Clone + PartialEq + schemars::JsonSchema + From<u8> + 'static,
@@ -56,17 +59,18 @@ where
         Err(Echo::H(o))
     }
     #[sv::msg(exec)]
-    fn g_plain(&self, ctx: ExecCtx, n: u64) -> Result<Response, Echo> {
+    fn g_plain(&self, ctx: ExecCtx, n: u64, tags: std::vec::Vec<W>) -> Result<Response, Echo> {
         self.calls.hit(3);
         let mut o = Obs::new(3);
         o.args[0] = n;
+        o.args[1] = tags.len() as u64;
         Err(Echo::H(o))
     }
     #[sv::msg(sudo)]
-    fn g_sudo(&self, ctx: SudoCtx, items: Vec<Option<B>>, k: u64) -> Result<Response, Echo> {
+    fn g_sudo(&self, ctx: SudoCtx, items: (Vec<Option<B>>, u8), k: u64) -> Result<Response, Echo> {
         self.calls.hit(4);
         let mut o = Obs::new(4);
-        o.args[0] = items.len() as u64;
+        o.args[0] = items.0.len() as u64;
         o.args[1] = k;
         Err(Echo::H(o))
     }
@@ -116,10 +120,10 @@ pub mod proofs {
     fn c15_fx_generic_dispatch_exec() {
         let mut s = S(Cell::new(77)); let a = A(Cell::new(0)); let q = Q(Cell::new(0));
         let h: u64 = kani::any(); let x: u32 = kani::any(); let n: u64 = kani::any();
-        let c = Gen::<u32, u8, u8, (), u8, u16>::new();
+        let c = Gen::<u32, u8, u8, (), u8, u16, u32>::new();
         let deps = DepsMut { storage: &mut s, api: &a, querier: QuerierWrapper::<Empty>::new(&q) };
         // the message type is named with exactly the parameter it uses
-        let msg: sv::ExecMsg<u32> = sv::ExecMsg::GExec { a: x, n };
+        let msg: sv::ExecMsg<u32, u32> = sv::ExecMsg::GExec { a: x, n };
         let r = core::mem::ManuallyDrop::new(msg.dispatch(&c, (deps, env(h), info(1))));
         match &*r {
             Err(Echo::H(o)) => assert!(o.h == 2 && o.args[0] == x as u64 && o.args[1] == n && o.height == h),
@@ -135,10 +139,10 @@ pub mod proofs {
     fn c15_fx_generic_dispatch_other_instantiation() {
         let mut s = S(Cell::new(77)); let a = A(Cell::new(0)); let q = Q(Cell::new(0));
         let x: u8 = kani::any(); let n: u64 = kani::any(); let k: u64 = kani::any();
-        let c = Gen::<u8, u32, u8, String, u8, u16>::new();
+        let c = Gen::<u8, u32, u8, String, u8, u16, u8>::new();
         {
             let deps = DepsMut { storage: &mut s, api: &a, querier: QuerierWrapper::<Empty>::new(&q) };
-            let msg: sv::ExecMsg<u8> = sv::ExecMsg::GExec { a: x, n };
+            let msg: sv::ExecMsg<u8, u8> = sv::ExecMsg::GExec { a: x, n };
             let r = core::mem::ManuallyDrop::new(msg.dispatch(&c, (deps, env(1), info(1))));
             match &*r {
                 Err(Echo::H(o)) => assert!(o.h == 2 && o.args[0] == x as u64 && o.args[1] == n),
@@ -162,7 +166,7 @@ pub mod proofs {
     fn c15_fx_generic_shape() {
         use serde::Serialize;
         let x: u32 = kani::any(); let n: u64 = kani::any();
-        let m: sv::ExecMsg<u32> = sv::ExecMsg::GExec { a: x, n };
+        let m: sv::ExecMsg<u32, u32> = sv::ExecMsg::GExec { a: x, n };
         let sh = m.serialize(rec::Rec).unwrap();
         assert!(sh.kind == 2 && sh.variant == "g_exec" && sh.n == 2);
         assert!(sh.keys[0] == "a" && sh.vals[0] == x as u64 && sh.keys[1] == "n" && sh.vals[1] == n);
@@ -179,7 +183,7 @@ pub mod proofs {
         let pick: u8 = kani::any();
         kani::assume(pick < 4);
         let key = match pick { 0 => "__phantom", 1 => "_phantom", 2 => "phantom", _ => "_Phantom" };
-        assert!(sv::ExecMsg::<u32>::deserialize(script::ED { key, fields: &none }).is_err());
+        assert!(sv::ExecMsg::<u32, u32>::deserialize(script::ED { key, fields: &none }).is_err());
         assert!(sv::SudoMsg::<u8>::deserialize(script::ED { key, fields: &none }).is_err());
         assert!(sv::QueryMsg::<u8, u8>::deserialize(script::ED { key, fields: &none }).is_err());
         kani::cover!(true, "end of harness reachable");
@@ -200,12 +204,13 @@ pub mod proofs {
     fn t_obligations() {
         fn enc<X: serde::Serialize + serde::de::DeserializeOwned + schemars::JsonSchema>() {}
         // T-BEGIN fx_generic.T.exec_msg_params_exact
-        // ExecMsg carries exactly A (one parameter) and can be built with a type that satisfies only A's own bounds
-        let m: sv::ExecMsg<OnlyA> = sv::ExecMsg::GExec { a: OnlyA(1), n: 2 };
-        let p: sv::ExecMsg<OnlyA> = sv::ExecMsg::GPlain { n: 2 };
+        // ExecMsg carries exactly A and W and can be built with a type that satisfies only those parameters' own bounds
+        // (two parameters, A and W, both instantiated with the same type: their order is not part of the property)
+        let m: sv::ExecMsg<OnlyA, OnlyA> = sv::ExecMsg::GExec { a: OnlyA(1), n: 2 };
+        let p: sv::ExecMsg<OnlyA, OnlyA> = sv::ExecMsg::GPlain { n: 2, tags: vec![OnlyA(3)] };
         // T-END fx_generic.T.exec_msg_params_exact
         // T-BEGIN fx_generic.T.sudo_msg_params_exact
-        let m: sv::SudoMsg<OnlyB> = sv::SudoMsg::GSudo { items: vec![None, Some(OnlyB)], k: 1 };
+        let m: sv::SudoMsg<OnlyB> = sv::SudoMsg::GSudo { items: (vec![None, Some(OnlyB)], 0), k: 1 };
         // T-END fx_generic.T.sudo_msg_params_exact
         // T-BEGIN fx_generic.T.query_msg_params_exact
         // QueryMsg carries exactly two parameters, R and V (V occurs only as resp=); the order of the two is not
@@ -219,12 +224,12 @@ pub mod proofs {
         enc::<sv::InstantiateMsg<OnlyB>>();
         // T-END fx_generic.T.instantiate_msg_params_exact
         // T-BEGIN fx_generic.T.messages_encodable_with_only_used_params
-        enc::<sv::ExecMsg<OnlyA>>();
+        enc::<sv::ExecMsg<OnlyA, OnlyA>>();
         enc::<sv::SudoMsg<OnlyB>>();
         enc::<sv::QueryMsg<OnlyR, OnlyR>>();
         // T-END fx_generic.T.messages_encodable_with_only_used_params
         // T-BEGIN fx_generic.T.accepted
-        let _ = Gen::<u32, u8, u8, (), u8, u16>::new();
+        let _ = Gen::<u32, u8, u8, (), u8, u16, u32>::new();
         // T-END fx_generic.T.accepted
         // T-BEGIN fx_generic.T.assoc_iface_msg_params
         // interface with associated types: ExecMsg over P only, QueryMsg over Q only
